@@ -456,6 +456,68 @@ fn case_codepoints(input: &Input, ctx: &mut Ctx) -> CaseResult {
     Ok(())
 }
 
+
+/// v5 PUBLISH frames whose payload is flagged as UTF-8, is `n` bytes long and carries one ill-formed sequence exactly at
+/// offset `o`: block-wise validators change blocks at powers of two. nums = [n, o, shape]
+fn case_payload_boundary(input: &Input, ctx: &mut Ctx) -> CaseResult {
+    let v = input.nums();
+    let (n, o, shape) = (v[0] as usize, v[1] as usize, v[2] as usize);
+    let shapes: [&[u8]; 9] = [b"\xFF", b"\x80", b"\xC3", b"\xE2\x82", b"\xF0\x9F\x98", b"\xED\xA0\x80", b"\xC0\x80", b"\xE0\x80\x80", b"\xF4\x90\x80\x80"];
+    let bad = shapes[shape % shapes.len()];
+    // filler: ASCII, or two-byte characters (then the defect goes between two of them)
+    let two = v.get(3).copied().unwrap_or(0) == 1;
+    let mut payload: Vec<u8> = Vec::with_capacity(n + 4);
+    if two {
+        while payload.len() + 2 <= o {
+            payload.extend_from_slice("\u{e9}".as_bytes());
+        }
+        while payload.len() < o {
+            payload.push(b'a');
+        }
+    } else {
+        payload.resize(o, b'a');
+    }
+    payload.extend_from_slice(bad);
+    while payload.len() < n {
+        payload.push(b'b');
+    }
+    for will in [false, true] {
+        let w = if will {
+            if payload.len() > 65_535 {
+                continue;
+            }
+            model::WPacket::new(
+                model::Fam::V5,
+                0x10,
+                model::Body::Connect {
+                    name: b"MQTT".to_vec(),
+                    level: 5,
+                    flags: 0b0000_0110,
+                    keep_alive: 1,
+                    props: Some(model::Props::default()),
+                    client_id: b"c".to_vec(),
+                    will: Some(model::Will { props: Some(model::Props { items: vec![model::Prop { id: 0x01, val: model::PVal::Byte(1) }], declared: None, width: 0 }), topic: b"w".to_vec(), payload: payload.clone() }),
+                    username: None,
+                    password: None,
+                },
+            )
+        } else {
+            model::WPacket::new(model::Fam::V5, 0x30, model::Body::Publish { topic: b"t".to_vec(), pid: None, props: Some(model::Props { items: vec![model::Prop { id: 0x01, val: model::PVal::Byte(1) }], declared: None, width: 0 }), payload: payload.clone() })
+        };
+        let frame = model::serialize(&w).ok_or_else(|| Violation::new("MQV-INTERNAL: cannot serialise"))?;
+        match decide::<V5>(&frame, ctx) {
+            Ok(Some(l)) => ensure!(l.starts_with("reject"), "MQV-INTERNAL: the reference decoder accepts a flagged payload with the ill-formed bytes {} at offset {}", hex_short(bad, 8), o),
+            Ok(None) => viol!("MQV-INTERNAL: frame outside the domain"),
+            Err(e) => return Err(Violation::new(format!("{} payload of {} bytes flagged as UTF-8 with the ill-formed bytes {} at offset {}: {}", if will { "will" } else { "PUBLISH" }, payload.len(), hex_short(bad, 8), o, e.msg))),
+        }
+    }
+    ctx.count_distinct(1);
+    ctx.label("payload-defect-at-block-boundary");
+    Ok(())
+}
+
+pub const SUB_PAYLOAD_BOUNDARY: Sub = Sub { name: "c04.flagged-payload-boundaries", f: case_payload_boundary };
+
 pub const SUB_CODEPOINTS: Sub = Sub { name: "c04.codepoints", f: case_codepoints };
 pub const SUB_UTF8_ATOMS: Sub = Sub { name: "c04.utf8-atom-sequences", f: case_utf8_atoms };
 pub const SUB_UTF8: Sub = Sub { name: "c04.utf8-sequences", f: case_utf8 };
@@ -486,7 +548,7 @@ pub const SUB_B3: Sub = Sub { name: "c04.frame.v3", f: case_bytes::<V3> };
 pub const SUB_B5: Sub = Sub { name: "c04.frame.v5", f: case_bytes::<V5> };
 
 pub fn subs() -> Vec<Sub> {
-    vec![SUB_V3, SUB_V5, SUB_B3, SUB_B5, SUB_H3, SUB_H5, SUB_X3, SUB_X5, SUB_UTF8, SUB_UTF8_ATOMS, SUB_CODEPOINTS]
+    vec![SUB_V3, SUB_V5, SUB_B3, SUB_B5, SUB_H3, SUB_H5, SUB_X3, SUB_X5, SUB_UTF8, SUB_UTF8_ATOMS, SUB_CODEPOINTS, SUB_PAYLOAD_BOUNDARY]
 }
 
 /// hand-assembled frames: the defects repaired by 284f652 / 2d36388 and the pinned leniencies
@@ -530,6 +592,26 @@ pub fn run(env: &mut Env) -> RunResult {
     let full = env.thorough();
     let total = utf8_seq_count(full);
     env.run_enum(SUB_UTF8, total.div_ceil(4_096), true, move |i| Input::Nums(vec![full as u64, i * 4_096, 4_096.min(total - i * 4_096)]))?;
+    {
+        // every offset within 4 of each power of two from 2^6 to 2^16 (thorough: 2^22), nine ill-formed shapes, two fillers
+        let mut cases: Vec<Input> = Vec::new();
+        let top = env.tier.sel(16u32, 22u32);
+        for e in 6..=top {
+            let pw = 1u64 << e;
+            for d in 0..8u64 {
+                let o = pw + 2 - d;
+                for shape in 0..9u64 {
+                    if e > 16 && shape % 3 != (d % 3) {
+                        continue;
+                    }
+                    cases.push(Input::Nums(vec![pw + 40, o, shape, (shape + d) % 2]));
+                }
+            }
+        }
+        let nc = cases.len() as u64;
+        env.run_enum(SUB_PAYLOAD_BOUNDARY, nc, false, move |i| cases[i as usize].clone())?;
+        env.require("c04.flagged-payload-boundaries", "payload-defect-at-block-boundary");
+    }
     env.run_enum(SUB_CODEPOINTS, 0x11_0000 / 2_048, true, |i| Input::Nums(vec![i * 2_048, 2_048]))?;
     env.require("c04.codepoints", "code-points");
     let atoms = env.tier.sel(3u64, 4u64);
